@@ -489,6 +489,13 @@ func (s *snapper) fill(n *Snap, v reflect.Value, depth int) *Snap {
 			return n
 		}
 		pol := policy(t)
+		if t.PkgPath() == "sync" && t.Name() == "Once" {
+			// a package-level Once is put back to its pristine state together with the variables it
+			// guards (restores happen between sequences, nothing is running): otherwise the second
+			// sequence of a worker would find the Once done and the guarded variable reset
+			save()
+			return n
+		}
 		if pol == polSkip || pol == polOpaque {
 			n.skip = true
 			return n
